@@ -24,7 +24,7 @@ RULE = ('Seeded histories of 2..8 operations on a directory with <= 3 paths: put
 ASSUMPTIONS = ['fault-free by statement: no crash / truncation is injected here', 'SED values are compared within 1e-12 relative (SED.read multiplies and divides by nu even when the unit is unchanged); cube and convolved files exactly',
                'for an SED written without apertures only the single row of values is required (apertures need not come back as None)']
 PROBES = ['overwrite_other_shape', 'sed_asc_written', 'sed_desc_written', 'cube_no_unc', 'cube_no_apertures', 'cube_memmap_read', 'cube_get_sed',
-          'read_order_wav', 'read_order_nu', 'unit_erg', 'unit_jy', 'conv_no_apertures', 'stale_memmap_reader', 'sed_no_apertures', 'gz_path', 'gz_sibling_present', 'read_in_other_unit', 'uncertainties_in_other_unit', 'cube_get_sed_twice', 'name_at_other_position_in_earlier_cube']
+          'read_order_wav', 'read_order_nu', 'unit_erg', 'unit_jy', 'conv_no_apertures', 'stale_memmap_reader', 'sed_no_apertures', 'gz_path', 'gz_sibling_present', 'read_in_other_unit', 'uncertainties_in_other_unit', 'cube_get_sed_twice', 'name_at_other_position_in_earlier_cube', 'apertures_not_increasing']
 
 
 def budgets(tier):
@@ -40,6 +40,8 @@ def _gen_obj(rng, kind):
          'unit': rng.choice(UNITS) if kind != 'conv' else 'mJy', 'seed': rng.randrange(1 << 30), 'dist': float('%.4g' % (10 ** rng.uniform(-1, 1)))}
     # uncertainties may be stored in another unit of the same family than the values (each extension carries its own unit)
     o['unc_unit'] = rng.choice(['mJy', 'Jy']) if (o['unit'] in ('mJy', 'Jy') and kind != 'conv' and rng.random() < 0.5) else o['unit']
+    # the apertures of the object the user builds need not be in increasing order
+    o['ap_order'] = rng.choice(['asc', 'asc', 'desc', 'shuffled'])
     if rng.random() < 0.7:
         # model names come from one small pool shared by every object of the history, in any order: two files (or two
         # generations of one path) then hold the same name at different positions
@@ -108,7 +110,24 @@ class _Ref(object):
         self.names = ['%s%s_%02d' % ('abcdefghijklmnopqrstuvwxyz'[int(g.integers(0, 26))], 'abcdefghijklmnopqrstuvwxyz'[int(g.integers(0, 26))], i) for i in range(nm)]
         if o.get('names'):
             self.names = list(o['names'])[:nm]
+        if self.aps is not None and len(self.aps) > 1 and o.get('ap_order', 'asc') != 'asc':
+            pa = np.arange(len(self.aps))[::-1] if o['ap_order'] == 'desc' else np.random.default_rng([o['seed'], 7]).permutation(len(self.aps))
+            self.aps = self.aps[pa]
+            self.val = self.val[:, pa]
+            self.unc = None if self.unc is None else self.unc[:, pa]
         self.o = o
+
+    def ap_index(self, got):
+        """positions in the stored aperture list of the apertures as read back (cells are keyed by aperture VALUE)"""
+        if self.aps is None:
+            return None if got is None else 'apertures present, none stored'
+        if got is None:
+            return 'apertures absent, stored %s' % (self.aps,)
+        got = np.asarray(got, float)
+        ia = [int(np.argmin(np.abs(self.aps - a))) for a in got]
+        if len(got) != len(self.aps) or sorted(ia) != list(range(len(self.aps))) or not np.allclose(got, self.aps[ia], rtol=1e-12, atol=0):
+            return 'apertures %s, stored %s' % (got, self.aps)
+        return ia
 
 
 def _unit(s):
@@ -168,8 +187,13 @@ def _check_cube(r, R, order, out, what):
         return 'frequencies do not belong to the wavelengths'
     if [str(x) for x in r.names] != R.names:
         return 'names %s, stored %s' % (list(r.names), R.names)
+    ia = R.ap_index(None if r.apertures is None else r.apertures.to(u.au).value)
+    if isinstance(ia, str):
+        return ia
+    if ia is None:
+        ia = list(range(R.val.shape[1]))
     out.compared('cube-cells', int(R.val.size))
-    if r.val.shape != R.val[:, :, idx].shape or not np.array_equal(np.asarray(r.val.value, float), R.val[:, :, idx]):
+    if r.val.shape != R.val[:, ia][:, :, idx].shape or not np.array_equal(np.asarray(r.val.value, float), R.val[:, ia][:, :, idx]):
         return 'values differ from the stored cells (matched by model, aperture, wavelength)'
     if r.val.unit != _unit(R.o['unit']):
         return 'unit %s, stored %s' % (r.val.unit, R.o['unit'])
@@ -177,12 +201,8 @@ def _check_cube(r, R, order, out, what):
         return 'uncertainties %s, stored %s' % ('absent' if r.unc is None else 'present', 'absent' if R.unc is None else 'present')
     if R.unc is not None:
         uu = _unit(R.o.get('unc_unit', R.o['unit']))
-        if not np.allclose(np.asarray(r.unc.to(uu).value, float), R.unc[:, :, idx], rtol=1e-14, atol=0):
+        if not np.allclose(np.asarray(r.unc.to(uu).value, float), R.unc[:, ia][:, :, idx], rtol=1e-14, atol=0):
             return 'uncertainties differ from the stored cells (stored in %s, read back in %s)' % (uu, r.unc.unit)
-    if (r.apertures is None) != (R.aps is None):
-        return 'apertures %s, stored %s' % ('absent' if r.apertures is None else 'present', 'absent' if R.aps is None else 'present')
-    if R.aps is not None and not np.array_equal(r.apertures.to(u.au).value, R.aps):
-        return 'apertures %s, stored %s' % (r.apertures, R.aps)
     if abs(r.distance.to(u.kpc).value / R.o['dist'] - 1) > 1e-12:
         return 'distance %s, stored %s kpc' % (r.distance, R.o['dist'])
     return None
@@ -211,6 +231,8 @@ def _execute(sc, sim, out):
                 out.violate('write-failed', '%s raised %s: %s' % (what, pipe.exc_name(r), r[1]), key='%s/%s@%s' % (o['kind'], pipe.exc_name(r), pipe.where(r[1]) if r[0] == 'exc' else ''))
                 break
             store[st['path']] = R
+            if R.aps is not None and len(R.aps) > 1 and np.any(np.diff(R.aps) < 0):
+                out.probe('apertures_not_increasing')
             if st['path'].endswith('.gz'):
                 out.probe('gz_path')
             if (st['path'] + '.gz') in store or st['path'][:-3] in store:
@@ -262,21 +284,28 @@ def _execute(sc, sim, out):
             w = s.wav.to(u.micron).value
             idx, ok = _match(w, R.wav, 1e-12)
             out.compared('sed-cells', int(R.val[0].size))
+            ia = R.ap_index(s.apertures.to(u.au).value) if (R.aps is not None and s.apertures is not None) else None
+            if isinstance(ia, str):
+                out.violate('round-trip', '%s: %s' % (what, ia), key=o['kind'])
+                break
+            if ia is None:
+                ia = list(range(R.val.shape[1]))
+            V0, U0 = R.val[0][ia], R.unc[0][ia]
             if not ok:
                 msg = 'wavelengths read back %s, stored %s' % (w, R.wav)
             elif len(w) > 1 and not (np.all(np.diff(w) > 0) if order == 'wav' else np.all(np.diff(w) < 0)):
                 msg = 'spectral axis not sorted as order=%r' % order
             elif not np.allclose(s.nu.to(u.Hz).value * w, 299792458e6, rtol=1e-12):
                 msg = 'frequencies do not belong to the wavelengths'
-            elif s.flux.shape != R.val[0][:, idx].shape or not np.allclose(s.flux.value, R.val[0][:, idx], rtol=1e-12, atol=0):
-                k = int(np.argmax(np.abs(s.flux.value / R.val[0][:, idx] - 1).max(axis=0))) if s.flux.shape == R.val[0][:, idx].shape else -1
-                msg = 'flux at %.6g um reads %s, stored %s' % (w[k], s.flux.value[:, k], R.val[0][:, idx][:, k]) if k >= 0 else 'flux shape %s' % (s.flux.shape,)
-            elif not np.allclose(s.error.to(_unit(o.get('unc_unit', o['unit']))).value, R.unc[0][:, idx], rtol=1e-12, atol=0):
+            elif s.flux.shape != V0[:, idx].shape or not np.allclose(s.flux.value, V0[:, idx], rtol=1e-12, atol=0):
+                k = int(np.argmax(np.abs(s.flux.value / V0[:, idx] - 1).max(axis=0))) if s.flux.shape == V0[:, idx].shape else -1
+                msg = 'flux at %.6g um reads %s, stored %s' % (w[k], s.flux.value[:, k], V0[:, idx][:, k]) if k >= 0 else 'flux shape %s' % (s.flux.shape,)
+            elif not np.allclose(s.error.to(_unit(o.get('unc_unit', o['unit']))).value, U0[:, idx], rtol=1e-12, atol=0):
                 msg = 'errors differ from the stored cells'
             elif s.name != R.names[0] or abs(s.distance.to(u.kpc).value / o['dist'] - 1) > 1e-12:
                 msg = 'name/distance %s %s' % (s.name, s.distance)
-            elif R.aps is not None and not np.allclose(s.apertures.to(u.au).value, R.aps, rtol=1e-12, atol=0):
-                msg = 'apertures %s, stored %s' % (s.apertures, R.aps)
+            elif R.aps is not None and s.apertures is None:
+                msg = 'apertures absent, stored %s' % (R.aps,)
             if msg is None and st.get('read_unit') and st['read_unit'] != o['unit']:
                 # requesting the other order only reverses the spectral axis - also when another flux unit is requested
                 # (the conversion itself is C15's subject and is not judged: only that the two reads are mirror images)
@@ -307,6 +336,9 @@ def _execute(sc, sim, out):
             if not any(R0 is R for R0 in seen_cubes):
                 seen_cubes.append(R)
             msg = _check_cube(c, R, order, out, what)
+            ia = R.ap_index(None if c.apertures is None else c.apertures.to(u.au).value) if msg is None else None
+            if not isinstance(ia, list):
+                ia = list(range(R.val.shape[1]))
             if msg is None:
                 k = st['pick'] % len(R.names)
                 rs = pipe.call(c.get_sed, R.names[k])
@@ -319,9 +351,9 @@ def _execute(sc, sim, out):
                 w = sd.wav.to(u.micron).value
                 idx, ok = _match(w, R.wav, 0)
                 out.compared('cube-sed-cells', int(R.val[k].size))
-                if not ok or not np.array_equal(np.asarray(sd.flux.value, float), R.val[k][:, idx]):
+                if not ok or not np.array_equal(np.asarray(sd.flux.value, float), R.val[k][ia][:, idx]):
                     msg = 'get_sed(%s) does not return the SED that was put in' % R.names[k]
-                elif (sd.error is None) != (R.unc is None) or (R.unc is not None and not np.allclose(np.asarray(sd.error.to(_unit(o.get('unc_unit', o['unit']))).value, float), R.unc[k][:, idx], rtol=1e-14, atol=0)):
+                elif (sd.error is None) != (R.unc is None) or (R.unc is not None and not np.allclose(np.asarray(sd.error.to(_unit(o.get('unc_unit', o['unit']))).value, float), R.unc[k][ia][:, idx], rtol=1e-14, atol=0)):
                     msg = 'get_sed(%s) errors do not match the stored uncertainties' % R.names[k]
                 elif sd.name != R.names[k]:
                     msg = 'get_sed name %s' % sd.name
@@ -332,7 +364,7 @@ def _execute(sc, sim, out):
                         out.compared('cube-sed-cells', int(R.val[k3].size))
                         if r3[0] != 'ok':
                             msg = 'get_sed(%s) raised %s' % (R.names[k3], pipe.exc_name(r3))
-                        elif r3[1].name != R.names[k3] or not np.array_equal(np.asarray(r3[1].flux.value, float), R.val[k3][:, idx]):
+                        elif r3[1].name != R.names[k3] or not np.array_equal(np.asarray(r3[1].flux.value, float), R.val[k3][ia][:, idx]):
                             msg = 'get_sed(%s) does not return the SED that was put in under that name' % R.names[k3]
                         if msg:
                             break
@@ -345,9 +377,9 @@ def _execute(sc, sim, out):
                     out.probe('cube_get_sed_twice')
                     if rs2[0] != 'ok':
                         msg = 'second get_sed raised %s' % pipe.exc_name(rs2)
-                    elif not np.array_equal(np.asarray(rs2[1].flux.value, float), R.val[k2][:, idx]) or rs2[1].name != R.names[k2]:
+                    elif not np.array_equal(np.asarray(rs2[1].flux.value, float), R.val[k2][ia][:, idx]) or rs2[1].name != R.names[k2]:
                         msg = 'get_sed(%s) after get_sed(%s) does not return the SED that was put in' % (R.names[k2], R.names[k])
-                    elif sd.name != R.names[k] or not np.array_equal(np.asarray(sd.flux.value, float), R.val[k][:, idx]):
+                    elif sd.name != R.names[k] or not np.array_equal(np.asarray(sd.flux.value, float), R.val[k][ia][:, idx]):
                         msg = 'the SED returned by get_sed(%s) changed when get_sed(%s) was called on the same cube' % (R.names[k], R.names[k2])
             if msg is None and st['memmap'] and st.get('keep_open'):
                 open_cubes.append((c, R, order))
@@ -360,12 +392,13 @@ def _execute(sc, sim, out):
             out.compared('conv-cells', int(R.val[:, :, 0].size))
             if [str(x).strip() for x in c.model_names] != R.names:
                 msg = 'names %s, stored %s' % (list(c.model_names), R.names)
-            elif not np.array_equal(c.flux.to(u.mJy).value, R.val[:, :, 0]) or not np.array_equal(c.error.to(u.mJy).value, R.unc[:, :, 0]):
-                msg = 'flux/error cells differ from the stored ones'
+            elif isinstance(R.ap_index(None if c.apertures is None else c.apertures.to(u.au).value), str):
+                msg = R.ap_index(None if c.apertures is None else c.apertures.to(u.au).value)
+            elif not np.array_equal(c.flux.to(u.mJy).value, R.val[:, R.ap_index(None if c.apertures is None else c.apertures.to(u.au).value) or list(range(R.val.shape[1])), 0]) \
+                    or not np.array_equal(c.error.to(u.mJy).value, R.unc[:, R.ap_index(None if c.apertures is None else c.apertures.to(u.au).value) or list(range(R.val.shape[1])), 0]):
+                msg = 'flux/error cells differ from the stored ones (matched by model and aperture)'
             elif abs(c.central_wavelength.to(u.micron).value - R.wav[0]) > 1e-12 * R.wav[0]:
                 msg = 'central wavelength %s, stored %r' % (c.central_wavelength, R.wav[0])
-            elif (c.apertures is None) != (R.aps is None) or (R.aps is not None and not np.array_equal(c.apertures.to(u.au).value, R.aps)):
-                msg = 'apertures %s, stored %s' % (c.apertures, R.aps)
         if msg:
             out.violate('round-trip', '%s: %s' % (what, msg), key=o['kind'])
             break
